@@ -184,6 +184,81 @@ ReadTiming(name, res) ==    \* res: [st, evs <<[n, d, m, e]>>] as TimingData(sim
                                        /\ SameDecimal(p.evs[i].v, [m |-> res.evs[i].m, e |-> res.evs[i].e])
   /\ UNCHANGED svars
 
+-----------------------------------------------------------------------------
+(* Timing of a chart's notes: which object supplies the timing data (split timing), the lists it parses   *)
+(* to (Beat.tla), the exact timeline (Timing.tla) and the chart's notes (NoteData.tla), composed.           *)
+(* Times are compared as integers in U = 1/286720 s on the "smooth" sub-domain (every BPM divides 640,       *)
+(* pauses and offset are multiples of 2 U): there every note's time is an integer number of U.                *)
+TM == INSTANCE Timing
+QPB == 26880              \* positions: 1/26880 beat
+UPS == 286720             \* times: 1/286720 s
+KeyOf(n) == (CHOOSE p \in KeyTable : p[1] = n)[2]
+K_OFFSET == KeyOf("OFFSET")
+ChartTimingNames == <<"BPMS", "STOPS", "DELAYS", "TIMESIGNATURES", "TICKCOUNTS", "COMBOS", "WARPS", "SPEEDS", "SCROLLS", "FAKES", "LABELS">>
+Truthy(v) == ~IsNone(v) /\ v # <<>>
+VersionDec(o) == LET v == AttrValue(o, K_VERSION) IN IF Truthy(v) THEN ParseDecimal(v) ELSE [ok |-> TRUE, m |-> 0, e |-> 0]
+VersionReadable(o) == VersionDec(o).ok /\ VersionDec(o).e <= 6 /\ VersionDec(o).m < 1000
+SplitVersion(o) == LET d == VersionDec(o) IN d.m * 10 >= 7 * Pow10(d.e)
+(* the chart is the source iff: SSC simfile, SSC chart, version >= 0.7, and one of the eleven timing properties is non-empty *)
+UsesChart(o, j) == /\ o.fmt = "ssc" /\ j # 0 /\ SplitVersion(o)
+                   /\ \E i \in 1..11 : LET k == KeyOf(ChartTimingNames[i]) IN MHas(o.charts[j], k) /\ Truthy(MGet(o.charts[j], k))
+(* all five fields come from that one source, never from the other *)
+SourceText(o, j, name) ==
+  IF UsesChart(o, j) THEN (IF MHas(o.charts[j], name) THEN MGet(o.charts[j], name) ELSE None)
+  ELSE IF name \in {K_WARPS, K_OFFSET, K_DELAYS} THEN (IF MHas(o.items, name) THEN MGet(o.items, name) ELSE None)
+  ELSE AttrValue(o, name)         \* (BPMS, STOPS: through the attribute, i.e. FREEZES on an SM simfile without STOPS)
+SmoothBpm(v) == v.m > 0 /\ v.e <= 3 /\ v.m < 100000 /\ (640 * Pow10(v.e)) % v.m = 0
+BpmU(v) == (640 * Pow10(v.e)) \div v.m
+SmoothSec(v) == v.e <= 6 /\ v.m > -7000 /\ v.m < 7000 /\ (v.m * UPS) % (2 * Pow10(v.e)) = 0
+SecU(v) == (v.m * UPS) \div Pow10(v.e)
+SmoothLen(v) == v.m > 0 /\ v.e <= 3 /\ v.m < 100000
+(* the five fields as the chosen source's texts parse (Beat.tla) *)
+TPB(o, j) == ParseEvents(SourceText(o, j, K_BPMS))
+TPS(o, j) == ParseEvents(SourceText(o, j, K_STOPS))
+TPD(o, j) == ParseEvents(SourceText(o, j, K_DELAYS))
+TPW(o, j) == ParseEvents(SourceText(o, j, K_WARPS))
+TPO(o, j) == LET ot == SourceText(o, j, K_OFFSET) IN IF Truthy(ot) THEN ParseDecimal(ot) ELSE [ok |-> TRUE, m |-> 0, e |-> 0]
+(* the timing data in Timing.tla's units (only evaluated inside the sub-domain below) *)
+TimingTD(o, j) ==
+  LET pb == TPB(o, j)  ps == TPS(o, j)  pd == TPD(o, j)  pw == TPW(o, j) IN
+  [bpms |-> [i \in DOMAIN pb.evs |-> [b |-> pb.evs[i].k * TM!TICK, u |-> BpmU(pb.evs[i].v)]],
+   stops |-> [i \in DOMAIN ps.evs |-> [b |-> ps.evs[i].k * TM!TICK, u |-> SecU(ps.evs[i].v)]],
+   delays |-> [i \in DOMAIN pd.evs |-> [b |-> pd.evs[i].k * TM!TICK, u |-> SecU(pd.evs[i].v)]],
+   warps |-> [i \in DOMAIN pw.evs |-> [b |-> pw.evs[i].k * TM!TICK, len |-> TM!TICK * NearestTick(DecimalAsRat(pw.evs[i].v))]]]
+TimingOff(o, j) == SecU(TPO(o, j))
+(* the sub-domain this specification evaluates numerically *)
+TimingOK(o, j) ==
+  LET pb == TPB(o, j)  ps == TPS(o, j)  pd == TPD(o, j)  pw == TPW(o, j)  po == TPO(o, j)
+      inc(evs) == \A k \in 1..(Len(evs) - 1) : evs[k].k < evs[k + 1].k
+  IN /\ VersionReadable(o)
+     /\ pb.ok /\ ps.ok /\ pd.ok /\ pw.ok /\ po.ok
+     /\ pb.evs # <<>> /\ pb.evs[1].k = 0
+     /\ \A i \in DOMAIN pb.evs : SmoothBpm(pb.evs[i].v) /\ pb.evs[i].k >= 0 /\ pb.evs[i].k < 3000
+     /\ \A i \in DOMAIN ps.evs : SmoothSec(ps.evs[i].v) /\ ps.evs[i].v.m > 0 /\ ps.evs[i].k >= 0 /\ ps.evs[i].k < 3000
+     /\ \A i \in DOMAIN pd.evs : SmoothSec(pd.evs[i].v) /\ pd.evs[i].v.m > 0 /\ pd.evs[i].k >= 0 /\ pd.evs[i].k < 3000
+     /\ \A i \in DOMAIN pw.evs : SmoothLen(pw.evs[i].v) /\ pw.evs[i].k >= 0 /\ pw.evs[i].k < 3000 /\ NearestTick(DecimalAsRat(pw.evs[i].v)) > 0
+     /\ SmoothSec(po)
+     /\ inc(pb.evs) /\ inc(ps.evs) /\ inc(pd.evs) /\ inc(pw.evs)
+NoteQ(x) == (x.n * QPB) \div x.d
+NotesTimable(ns) == \A k \in DOMAIN ns : QPB % ns[k].d = 0 /\ ns[k].n < 3000
+TimeNotesInDomain(o, j) ==
+  /\ j \in DOMAIN o.charts /\ (o.fmt = "ssc" => ChartHasNotes(o.charts[j]))
+  /\ TimingOK(o, j) /\ NotesTimable(Decode(ChartNotesText(o, j)))
+(* time_notes(NoteData(chart), TimingData(simfile, chart), opt): opt "fake" (the default) | "drop" | "keep" *)
+TimedNotesOf(o, j, opt) ==
+  LET ns == Decode(ChartNotesText(o, j))  td == TimingTD(o, j)  off == TimingOff(o, j)
+      hit(k) == TM!Hittable(td, NoteQ(ns[k]))
+      keep(k) == hit(k) \/ opt = "keep" \/ (opt = "fake" /\ ns[k].t = 49)
+      idx == SelectSeq([k \in DOMAIN ns |-> k], keep)
+  IN [m \in DOMAIN idx |->
+        LET k == idx[m]  x == ns[k] IN
+        [p |-> x.p, n |-> x.n, d |-> x.d, c |-> x.c, k |-> x.k,
+         t |-> IF ~hit(k) /\ opt = "fake" THEN 70 ELSE x.t,
+         tm |-> TM!Val(td, TM!TimeL(td, NoteQ(x), TM!T_STOP)) - off]]
+TimeNotes(j, opt, res) ==      \* res: the timed notes the library yielded, [p, n, d, c, t, k, tm (in U)]
+  /\ TimeNotesInDomain(obj, j)
+  /\ res = TimedNotesOf(obj, j, opt)
+  /\ UNCHANGED svars
 (* invariant of every session: what is on disk re-opens as something the object was at the time of saving; checked by Reopen *)
 TypeOK == obj.fmt \in {"sm", "ssc"} /\ MUnique(obj.items)
 =============================================================================
